@@ -397,6 +397,28 @@ def correspond(ctx):
                 ndense += 1
             for what, obs, exp in oracle(inp, st, out, circ, dense_max):
                 corr.oracle_fail(inp, obs, exp, what)
+    # observation points LinearSpinChain / CircularSpinChain / SCQubits .topology_map are the same router
+    ndev = 0
+    devs = {}
+    for idx, ((inp, kind), (st, out, circ)) in enumerate(zip(gen, impl)):
+        if inp["fn"] != "tcs" or st != "ok" or inp["N"] > 7 or inp["N"] < 2 or (kind == "single" and idx % 23):
+            continue
+        try:
+            from qutip_qip.device import LinearSpinChain, CircularSpinChain, SCQubits
+            names = ["LinearSpinChain", "SCQubits"] if inp["setup"] == "linear" else ["CircularSpinChain"]
+            for dn in names:
+                key = (dn, inp["N"])
+                if key not in devs:
+                    devs[key] = {"LinearSpinChain": LinearSpinChain, "CircularSpinChain": CircularSpinChain,
+                                 "SCQubits": SCQubits}[dn](inp["N"])
+                got = _canon_gates(devs[key].topology_map(_mk_circuit(inp)).gates)
+                ndev += 1
+                corr.tally("device:" + dn)
+                if got != out:
+                    corr.disagree(dict(inp, device=dn), got, out, dn + ".topology_map differs from to_chain_structure")
+        except Exception as e:
+            corr.disagree(dict(inp, device="?"), "exception " + repr(e)[:200], out, "topology_map raised")
+    corr.extra["device_topology_map_cases"] = ndev
     # model-free stream: measurement after a routed gate
     for N, setup in ((3, "linear"), (4, "circular")):
         inp = {"fn": "tcs", "setup": setup, "N": N, "gates": [["CNOT", [N - 1], [0], None]], "measurement": True}
